@@ -34,7 +34,7 @@ NumViol(s) == CASE s.t = "F" -> {}
                 [] OTHER -> {"not-a-number"}
 ShapeViol(s) ==
   CASE s.t \in {"F", "Dual", "Dual2"} -> NumViol(s)
-    [] s.t = "PPSpline" -> (IF s.k >= 1 /\ s.nt >= 2 /\ s.n = s.nt - s.k /\ s.n >= 1 THEN {} ELSE {"n-vs-knots"})
+    [] s.t = "PPSpline" -> (IF s.k >= 1 /\ s.nt >= 2 /\ s.n = s.nt - s.k /\ s.n >= 0 THEN {} ELSE {"n-vs-knots"})   \* n = 0 (order = knot count) is accepted by PPSpline::new
                            \cup (IF s.sorted THEN {} ELSE {"knots-unsorted"})
                            \* (the length of a supplied coefficient array is NOT an invariant of the type: PPSpline::new does
                            \*  not check it, only csolve establishes it - so it is not demanded of a loaded object either)
